@@ -149,6 +149,15 @@ func startFixture(dir string) (*fixture, error) {
 	if err != nil {
 		return nil, fmt.Errorf("rpc_modules: %v", err)
 	}
+	// Wait until the filter event loop this start created is running before stopping the
+	// node: it subscribes to the tx pool when it is first scheduled, and a pool that was
+	// closed in the meantime hands it a nil subscription (nil dereference, process dies).
+	// Installing a filter is handled by that loop, so the call returns only once it runs.
+	var fid string
+	if err := c0.Call(&fid, "aqua_newBlockFilter"); err == nil {
+		var ok bool
+		c0.Call(&ok, "aqua_uninstallFilter", fid)
+	}
 	c0.Close()
 	if err := st0.Stop(); err != nil {
 		return nil, fmt.Errorf("first stop: %v", err)
